@@ -132,6 +132,22 @@ def replay_seq(run, ct, rng, pool, seq, entry):
                 refb = nets_ref(net, arrays_b)
                 if gb.shape != refb.shape or not np.allclose(gb, refb, rtol=1e-12, atol=1e-12):
                     ok = False
+            elif entry == "expression_with_constants":
+                # one tensor is a constant folded into the expression; the constant VALUES differ from call to call, so an
+                # expression (or folded constant) left over from an earlier call gives a wrong value
+                kw.pop("strip_exponent", None)
+                ci = rng.randrange(net.N)
+                cst = {ci: arrays[ci]}
+                rest = [a for k_, a in enumerate(arrays) if k_ != ci]
+                ex = ct.array_contract_expression(net.c_inputs(), net.c_output(), sizes_of(c), optimize=opt, cache=True, constants=cst, **kw)
+                exu = ct.array_contract_expression(net.c_inputs(), net.c_output(), sizes_of(c), optimize=opt, cache=False, constants=cst, **kw)
+                got, unc = ex(*rest), exu(*rest)
+                objs["keep%d" % step] = ex
+                restb = [a for k_, a in enumerate(arrays_b) if k_ != ci]
+                gb = value_of(ex(*restb))
+                refb = nets_ref(net, [arrays[k_] if k_ == ci else arrays_b[k_] for k_ in range(net.N)])
+                if gb.shape != refb.shape or not np.allclose(gb, refb, rtol=1e-12, atol=1e-12):
+                    ok = False
             else:   # array_contract_path
                 p = ct.array_contract_path(net.c_inputs(), net.c_output(), sizes_of(c), optimize=opt if opt != "auto" else "greedy", cache=True)
                 pu = ct.array_contract_path(net.c_inputs(), net.c_output(), sizes_of(c), optimize=opt if opt != "auto" else "greedy", cache=False)
@@ -154,7 +170,8 @@ def nets_ref(net, arrays):
     return nets.refeval(n2, arrays)
 
 
-ENTRIES = ["einsum", "array_contract", "array_contract_expression", "einsum_expression", "array_contract_path", "mixed"]
+ENTRIES = ["einsum", "array_contract", "array_contract_expression", "einsum_expression", "array_contract_path",
+           "expression_with_constants", "mixed"]
 
 
 def run(run):
@@ -216,7 +233,7 @@ def run(run):
     run.cov["exhaustive"] = not quick
     run.cov["rule"] = ("all 729 call sequences of length 3 (enumerated by TLC from Cache.tla) over a pool of 9 calls differing in exactly "
                        "one component (output order, one size, optimize value incl. explicit path, one option kwarg, relabelling, tensor "
-                       "order, axis order) x 5 cached entry points + a mode mixing the entry points inside a sequence (quick: 60 sampled sequences each); caches cleared before each "
+                       "order, axis order) x 6 cached entry points (incl. expressions with folded constants) + a mode mixing the entry points inside a sequence (quick: 60 sampled sequences each); caches cleared before each "
                        "sequence; distinct by (entry point, sequence, pool variant)")
 
 
